@@ -151,8 +151,12 @@ def _s_participants():
     crawl1 = Participant("crawl1", lambda t: t.index_batch_crawl_iter({Ab: [P1, Az, Ax], Az: [Ab, P1], P1: [Ab]}, 1))
     crawl2 = Participant("crawl2", lambda t: t.index_batch_crawl_iter({Axy: [Ab, P2], P2: [Ab, Az]}, 1))
     most = Query("most", lambda t: t.get_webentity_most_linked_pages_iter(1, WE1, pages_count=3), lambda t: None, None)
+    most.params = (3, None)
     most2 = Query("most2", lambda t: t.get_webentity_most_linked_pages_iter(1, WE1, pages_count=10, max_depth=1), lambda t: None, None)
-    return {"crawl1": crawl1, "crawl2": crawl2, "most": most, "most2": most2}, WE1
+    most2.params = (10, 1)
+    pagesq = Query("pagesq", lambda t: t.get_webentity_pages_iter(2, [Ax]), lambda t: None, None)
+    netq = Query("netq", lambda t: t.get_webentities_links_iter(out=True, include_auto=True), lambda t: None, None)
+    return {"crawl1": crawl1, "crawl2": crawl2, "most": most, "most2": most2, "pagesq": pagesq, "netq": netq}, WE1
 
 
 def _s_oracle(WE1):
@@ -185,6 +189,26 @@ def _s_oracle(WE1):
                 continue
             out.append(("top-k-after-interleaving", "after all requests completed, most-linked pages of webentity 1 (k=%d) = %s: %s" % (k, [(L.show(d["lru"]), d["indegree"]) for d in ans], why), None))
             break
+        # no writer among the participants: the index never changed, so the answer of the
+        # interleaved most-linked query itself must be a true top-k
+        if all(p.is_query for p in e.parts):
+            rp = {}
+            for p in eligible:
+                try:
+                    rp[p] = t.retrieve_prefix(p)
+                except e.w.TraphException:
+                    rp[p] = None
+            for qi, p in enumerate(e.parts):
+                if not hasattr(p, "params"):
+                    continue
+                k, md = p.params
+                el = {x for x in eligible if md is None or (rp[x] and len(L.stems(x)) - len(L.stems(rp[x])) <= md)}
+                ans = e.res[qi]
+                why = judge(ans, el, indeg, k)
+                if why is not None and judge(ans, el, indeg_known, k) is not None:
+                    out.append(("top-k-interleaved-read-only", "most-linked query %s advanced in turns with other read-only requests answered %s: %s" % (p.name, [(L.show(d["lru"]), d["indegree"]) for d in ans], why), None))
+                elif why is not None:
+                    out.append(("unlinked-page-indegree", "interleaved most-linked (k=%d): %s" % (k, why), KNOWN_SIG))
         e.outcome = tuple(sorted(indeg.items()))
         return out
 
@@ -192,7 +216,7 @@ def _s_oracle(WE1):
 
 
 # (participants, preemption bound quick, thorough); None = unbounded
-S_COMBOS = [(("crawl1", "most"), 3, None), (("crawl2", "most2"), None, None), (("crawl1", "crawl2", "most"), 2, 3)]
+S_COMBOS = [(("crawl1", "most"), 3, None), (("crawl2", "most2"), None, None), (("crawl1", "crawl2", "most"), 2, 3), (("most", "pagesq"), None, None), (("most", "netq"), 3, None), (("most", "most2"), 3, None)]
 
 
 def _s_work(args):
